@@ -5,6 +5,8 @@
 -/
 import EchoVerif.Lemmas.TickCommit
 import EchoVerif.Lemmas.TickRadix
+import EchoVerif.Lemmas.TickSerial
+import EchoVerif.Model.TickDigest
 import EchoVerif.Generated.Radix
 import EchoVerif.Generated.Conflict
 
@@ -36,6 +38,40 @@ theorem tick_order_free (cfg : Cfg) (hcfg : cfg.sort = Generated.sortCfg)
     (hset : ∀ c, c ∈ xs ↔ c ∈ ys) :
     (tick cfg progOf pre radix xs).2 = (tick cfg progOf pre radix ys).2 :=
   tick_set cfg hcfg progOf pre radix xs ys hco hb hset
+
+/-- **tick_digests_order_free** (corollary of `tick_order_free`): the PRE-IMAGES of everything a
+    committed tick publishes — state root, patch digest (canonical in/out slots + canonical ops +
+    rule pack id + policy), commit id, receipt (= decision) digest, plan digest, rewrites digest —
+    are the same for two arrival lists with the same candidate set, on both scheduler paths and for
+    every batch size. The pre-images are tied to the real `Snapshot` fields per case by the
+    correspondence run (`harness hashx` evaluates them with the real BLAKE3), so no assumption
+    about the hash function is needed: equal pre-images are hashed to equal digests. -/
+theorem tick_digests_order_free (ctx : TickDigest.Ctx) (cfg : Cfg) (hcfg : cfg.sort = Generated.sortCfg)
+    (progOf : Nat → Nat → Option Program) (pre : WState) (radix : Bool)
+    (xs ys : List TCand) (hco : Coherent xs)
+    (hb : ∀ c ∈ xs, c.shash < 2 ^ 256 ∧ c.rule < 4294967296)
+    (hset : ∀ c, c ∈ xs ↔ c ∈ ys) :
+    TickDigest.tickDigests ctx cfg progOf pre radix xs = TickDigest.tickDigests ctx cfg progOf pre radix ys := by
+  unfold TickDigest.tickDigests
+  rw [tick_order_free cfg hcfg progOf pre radix xs ys hco hb hset]
+
+/-- **digests_fun_of_result**: which part of the tick result each published digest commits to —
+    the state root only to the post-state (and the root key), the receipt / plan / rewrites digests
+    only to the receipt entries, the patch digest only to the emitted patch and the slots of the
+    accepted rewrites, the commit id to root + patch. Equal results ⇒ equal pre-images. -/
+theorem digests_fun_of_result (ctx : TickDigest.Ctx) (s1 s2 : Success) :
+    (s1.post = s2.post → TickDigest.rootPre ctx s1 = TickDigest.rootPre ctx s2) ∧
+    (s1.entries = s2.entries → TickDigest.receiptPre s1 = TickDigest.receiptPre s2 ∧
+        TickDigest.planPre s1 = TickDigest.planPre s2 ∧ TickDigest.rewritesPre s1 = TickDigest.rewritesPre s2) ∧
+    (s1.patch = s2.patch → s1.inSlots = s2.inSlots → s1.outSlots = s2.outSlots →
+        TickDigest.patchPre ctx s1 = TickDigest.patchPre ctx s2) ∧
+    (s1.post = s2.post → s1.patch = s2.patch → s1.inSlots = s2.inSlots → s1.outSlots = s2.outSlots →
+        TickDigest.commitPre ctx s1 = TickDigest.commitPre ctx s2) := by
+  refine ⟨?_, ?_, ?_, ?_⟩
+  · intro h; simp only [TickDigest.rootPre, h]
+  · intro h; simp only [TickDigest.receiptPre, TickDigest.planPre, TickDigest.rewritesPre, h, and_self]
+  · intro h1 h2 h3; simp only [TickDigest.patchPre, h1, h2, h3]
+  · intro h0 h1 h2 h3; simp only [TickDigest.commitPre, TickDigest.rootPre, TickDigest.patchPre, h0, h1, h2, h3]
 
 /-- **radix_drain_eq_legacy_drain**: the payload hand-out of `PendingTx::drain_in_order`
     (`fat[handle].take()` along the sorted thin list) never hits one of its `unreachable!`s and
@@ -159,6 +195,82 @@ theorem rejected_not_executed (items : List (TCand × Program)) (rows : List Sch
   · cases hh; rename_i hr; exact ⟨(r1, r2), hm, hr⟩
   · cases hh
 
+private theorem mem_flatten_perm {σ deltas : List (List Op)} (hσ : σ.Perm deltas) (o : Op) :
+    o ∈ σ.flatten ↔ o ∈ deltas.flatten := by
+  simp only [List.mem_flatten]
+  constructor
+  · rintro ⟨d, hd, ho⟩; exact ⟨d, hσ.mem_iff.mp hd, ho⟩
+  · rintro ⟨d, hd, ho⟩; exact ⟨d, hσ.mem_iff.mpr hd, ho⟩
+
+/-- **tick_serial_commute** (DPO sequential commutation, full for node / edge / attachment ops - the
+    only ops a user rewrite can emit under enforcement): let `deltas` be the op lists of the ACCEPTED
+    rewrites of a committed tick, each computed against the PRE-state. If they are single-valued per
+    location (`SingleValued`: at most one value is written to any node record, edge record, α or β
+    attachment - what honest, pairwise write-disjoint footprints give), then applying them one after
+    another in ANY two orders, whenever both succeed, reaches the same state. -/
+theorem tick_serial_commute {cfg : Cfg} {pre : WState} {radix : Bool} {items : List (TCand × Program)}
+    {s : Success} (hpre : pre.SortedAll) (h : commitDrained cfg pre radix items = .ok s) :
+    ∃ rows deltas, execAll pre (acceptedOf items rows) = .ok deltas ∧
+      (SingleValued deltas.flatten →
+        ∀ σ1 σ2 : List (List Op), σ1.Perm deltas → σ2.Perm deltas →
+        ∀ c1 c2, applySerial pre σ1 = .ok c1 → applySerial pre σ2 = .ok c2 → c1 = c2) := by
+  obtain ⟨rows, deltas, _, hd, _, _, _⟩ := commitDrained_ok h
+  refine ⟨rows, deltas, hd, ?_⟩
+  intro hsv σ1 σ2 h1 h2 c1 c2 a1 a2
+  have hsk : ∀ σ : List (List Op), σ.Perm deltas → ∀ d ∈ σ, ∀ o ∈ d, o.isSkel = true :=
+    fun σ hσ d hdm o ho => execAll_skel hd o (List.mem_flatten.mpr ⟨d, hσ.mem_iff.mp hdm, ho⟩)
+  exact serial_state_eq hpre deltas.flatten hsv σ1 σ2 (hsk σ1 h1) (hsk σ2 h2)
+    (fun o ho => (mem_flatten_perm h1 o).mp ho) (fun o ho => (mem_flatten_perm h2 o).mp ho)
+    (sameCover_of_mem (fun o => (mem_flatten_perm h1 o).trans (mem_flatten_perm h2 o).symm)) a1 a2
+
+/-- **tick_serial_equiv_partial** (serial = merged). Full statement wanted: under `SingleValued`,
+    every successful serial application of the accepted rewrites' op lists, in any order, reaches
+    the tick's post-state `s.post` (which the engine computes by ONE canonical sorted pass over the
+    merged ops). Proved here with one extra hypothesis, the named gap: `SameCover` - every location
+    touched by an accepted rewrite's op is still touched by an op of the canonical merged patch
+    (i.e. key-dedupe of the merge never drops the only op on a location; true when equal sort keys
+    mean equal ops, which `mergeOps` has checked, but the survival lemma through
+    `sortOps`/`dedupByKey`/`lastWins` is not proved). The oracle closes the gap differentially: it
+    applies the accepted rewrites' ops serially in two orders on the real code and compares with the
+    real post-state. Portal / instance ops cannot be emitted by user rewrites (`checkOp`), so they
+    are outside this theorem by construction. -/
+theorem tick_serial_equiv_partial {cfg : Cfg} {pre : WState} {radix : Bool}
+    {items : List (TCand × Program)} {s : Success} (hpre : pre.SortedAll)
+    (h : commitDrained cfg pre radix items = .ok s) :
+    ∃ rows deltas, execAll pre (acceptedOf items rows) = .ok deltas ∧
+      (SingleValued deltas.flatten → SameCover (patchCanon s.merged) deltas.flatten →
+        ∀ σ : List (List Op), σ.Perm deltas →
+        ∀ c, applySerial pre σ = .ok c → c = s.post) := by
+  obtain ⟨rows, deltas, _, hd, hm, hp, _⟩ := commitDrained_ok h
+  refine ⟨rows, deltas, hd, ?_⟩
+  intro hsv hcov σ hσ c hc
+  have hmem : ∀ o ∈ patchCanon s.merged, o ∈ deltas.flatten :=
+    fun o ho => mem_mergeOps hm (mem_patchCanon ho)
+  have hsk2 : ∀ d ∈ σ, ∀ o ∈ d, o.isSkel = true :=
+    fun d hdm o ho => execAll_skel hd o (List.mem_flatten.mpr ⟨d, hσ.mem_iff.mp hdm, ho⟩)
+  have hsk1 : ∀ d ∈ [patchCanon s.merged], ∀ o ∈ d, o.isSkel = true := by
+    intro d hdm o ho
+    simp only [List.mem_singleton] at hdm; subst hdm
+    exact execAll_skel hd o (hmem o ho)
+  have h1 : applySerial pre [patchCanon s.merged] = .ok s.post := by
+    rw [applySerial_single]; exact hp
+  have hcov' : SameCover [patchCanon s.merged].flatten σ.flatten := by
+    have e : [patchCanon s.merged].flatten = patchCanon s.merged := by simp
+    rw [e]
+    have hc2 := sameCover_of_mem (fun o => (mem_flatten_perm hσ o).symm)
+    exact ⟨fun w i => (hcov.node w i).trans (hc2.node w i), fun w i => (hcov.edge w i).trans (hc2.edge w i),
+      fun w i => (hcov.natt w i).trans (hc2.natt w i), fun w i => (hcov.eatt w i).trans (hc2.eatt w i)⟩
+  exact (serial_state_eq hpre deltas.flatten hsv [patchCanon s.merged] σ hsk1 hsk2
+    (fun o ho => by simp at ho; exact hmem o ho) (fun o ho => (mem_flatten_perm hσ o).mp ho)
+    hcov' h1 hc).symm
+
+-- non-vacuity of `SingleValued`: two rewrites writing different nodes
+example : SingleValued [Op.upsertNode 1 1 8, Op.upsertNode 1 3 8] := by
+  constructor <;> intro w i a ha b hb va vb h1 h2 <;>
+    simp only [List.mem_cons, List.mem_nil_iff, or_false] at ha hb <;>
+    rcases ha with rfl | rfl <;> rcases hb with rfl | rfl <;>
+    simp_all [effNode, effEdge, effNatt, effEatt] <;> omega
+
 /-! ### non-vacuity: a concrete three-candidate tick with one rejection, run in two arrival orders -/
 
 def exPre : WState :=
@@ -207,5 +319,10 @@ example : exCfg.sort = Generated.sortCfg ∧ ∀ c ∈ [cA, cB, cC], c.shash < 2
   intro c hc
   simp only [List.mem_cons, List.mem_nil_iff, or_false] at hc
   rcases hc with rfl | rfl | rfl <;> simp [cA, cB, cC]
+
+-- the digests of the example tick exist (a committed tick), on both paths:
+def exCtx : TickDigest.Ctx := { root := (1, 1), policy := 0x30504F4E, ruleIds := [0xF1, 0xF2], parents := [] }
+example : (match TickDigest.tickDigests exCtx exCfg exProg exPre false [cA, cB, cC] with
+    | .ok _ => true | .error _ => false) = true := by decide +kernel
 
 end EchoVerif.C01
